@@ -580,6 +580,126 @@ func c06CheckProgram(m int, idx int64) (f *mc.Failure, open bool) {
 	return nil, false
 }
 
+// ---------------------------------------------------------------- many names
+
+// c06Words: everyday two-character words; a name is three of them (six characters, all names of
+// one byte length).
+var c06Words = strings.Fields("服务 订单 预算 背景 课程 累计 客户 年龄 总数 鼠标 计数 用户 页数 金额 学生 列数 利润 班级 实际 重试 " +
+	"数量 商品 价格 库存 仓库 地址 电话 邮箱 名称 编号 日期 时间 状态 类型 等级 分数 成绩 科目 教师 教室 " +
+	"部门 员工 工资 奖金 税率 折扣 运费 重量 长度 宽度 高度 面积 体积 速度 温度 湿度 压力 电压 电流 功率 " +
+	"频率 周期 颜色 字体 大小 位置 方向 角度 半径 坐标 文件 目录 路径 权限 密码 令牌 会话 缓存 队列 任务 " +
+	"线程 进程 端口 协议 域名 请求 响应 标题 正文 摘要 标签 分类 评论 点赞 收藏 关注 粉丝 消息 通知 公告")
+
+func c06Name(i int) string {
+	w := len(c06Words)
+	return c06Words[i%w] + c06Words[(i/w)%w] + c06Words[(i/w/w)%w]
+}
+
+// c06ManyNames: N distinct names alive at once are N distinct symbols.  The first half is declared
+// in the outer block, the second half in an inner block; every name must read back its own value,
+// assignments to the inner names must leave every outer name alone, and after the inner block has
+// ended the inner names are gone and the outer ones unchanged.  (All pairs among N names at once:
+// what a symbol table keyed by a fingerprint of the name gets wrong.)
+func c06ManyNames(n, off int, beat func()) (f *mc.Failure) {
+	cs := mc.J(c06Case{Part: "many", M: n, Idx: int64(off)})
+	fail := func(bucket, exp, obs string) *mc.Failure {
+		return &mc.Failure{Kind: "mismatch", Bucket: "many-names:" + bucket, Case: cs, Expected: exp, Observed: obs}
+	}
+	defer func() {
+		if p := recover(); p != nil {
+			f = &mc.Failure{Kind: "panic", Bucket: "many-names", Case: cs, Observed: fmt.Sprint(p)}
+		}
+	}()
+	vm := r.InitVM(map[string]r.Element{})
+	mod := vm.AllocateModule("主模块", nil)
+	vm.PushCallFrame(r.NewScriptCallFrame(mod))
+	names := make([]*r.IDName, n)
+	for i := range names {
+		names[i] = r.NewIDName(c06Name(off + i))
+	}
+	cn := func(i int) string { return fmt.Sprintf("%s (name %d)", c06Name(off+i), off+i) }
+	read := func(i int) (float64, error) {
+		e, err := vm.FindElement(names[i])
+		if err != nil {
+			return 0, err
+		}
+		num, ok := e.(*value.Number)
+		if !ok {
+			return 0, fmt.Errorf("holds %s", e.String())
+		}
+		return num.GetValue(), nil
+	}
+	half := n / 2
+	for i := 0; i < half; i++ {
+		if i%1000 == 0 {
+			beat()
+		}
+		if _, err := read(i); err == nil {
+			return fail("visible-before-declaration", cn(i)+" is undefined before its declaration", "it can be read")
+		}
+		if err := vm.DeclareElement(names[i], value.NewNumber(float64(i))); err != nil {
+			return fail("declare", "令"+cn(i)+", never declared before, is accepted", err.Error())
+		}
+	}
+	vm.BeginScope()
+	for i := half; i < n; i++ {
+		if i%1000 == 0 {
+			beat()
+		}
+		if _, err := read(i); err == nil {
+			return fail("visible-before-declaration", cn(i)+" is undefined before its declaration", "it can be read")
+		}
+		var err error
+		if i%2 == 0 {
+			err = vm.DeclareElement(names[i], value.NewNumber(float64(i)))
+		} else {
+			err = vm.DeclareConstElement(names[i], value.NewNumber(float64(i)))
+		}
+		if err != nil {
+			return fail("declare", "令"+cn(i)+", never declared before, is accepted in the inner block", err.Error())
+		}
+	}
+	for i := 0; i < n; i++ {
+		if i%1000 == 0 {
+			beat()
+		}
+		if v, err := read(i); err != nil || v != float64(i) {
+			return fail("read-back", fmt.Sprintf("%s holds %d", cn(i), i), fmt.Sprintf("%v %v", v, err))
+		}
+	}
+	for i := half; i < n; i += 2 {
+		if i%1000 == 0 {
+			beat()
+		}
+		if err := vm.SetElement(names[i], value.NewNumber(float64(-i))); err != nil {
+			return fail("assign", cn(i)+", a variable, can be assigned", err.Error())
+		}
+	}
+	for i := 0; i < half; i++ {
+		if i%1000 == 0 {
+			beat()
+		}
+		if err := vm.SetElement(names[i], value.NewNumber(float64(i)+0.5)); err != nil {
+			return fail("assign", cn(i)+", an outer variable, can be assigned from the inner block", err.Error())
+		}
+	}
+	vm.EndScope()
+	for i := 0; i < half; i++ {
+		if i%1000 == 0 {
+			beat()
+		}
+		if v, err := read(i); err != nil || v != float64(i)+0.5 {
+			return fail("outer-after-block", fmt.Sprintf("%s holds %v", cn(i), float64(i)+0.5), fmt.Sprintf("%v %v", v, err))
+		}
+	}
+	for i := half; i < n; i++ {
+		if v, err := read(i); err == nil {
+			return fail("inner-after-block", cn(i)+" is gone once its block has ended", fmt.Sprintf("it reads %v", v))
+		}
+	}
+	return nil
+}
+
 // ---------------------------------------------------------------- depth family
 
 // c06DeepCount: for every depth 1..D, 2 symbol-table histories and 4 programs.
@@ -656,8 +776,8 @@ func init() {
 		ID:    "C06",
 		Level: "model_checking",
 		Rule: "E2: breadth-first search over histories of {begin, end, declare x|y, declare-const x|y, set x|y, declare/set of predefined names} on the real runtime.VM symbol table; every successor is built by replaying its history on a fresh VM; dedup on the model state after the observation battery (both lookups, block depth, live symbols) agreed; step error codes 42/43/44 and the observation are compared with a stack-of-maps model in every state. " +
-			"Depth family: for every depth 1..300 (700 thorough): begin x d, declare, end x d on the symbol table (with and without an outer declaration of the same name) against the model, and four recursive programs d calls deep whose input / local are named like caller variables (plain, call as an operand, a local per level, a method of an object): after the calls return the caller reads its own values and every block has ended. " +
-			"E1: every statement tree <= k nodes (nesting <= 3) over 19 actions (a failing built-in method call, declare, declare from the same outer name, constant, assign, probe on 甲 乙 参, predefined names, 得到 in both call forms, assignment to a method / type name) inside 7 block kinds (branch, branch whose condition binds a name with 得到, one-pass 每当, one-element 遍历, method call, method ending in a handled exception, recursion depth 3), real interpreter vs reference interpreter on trace, error code and final scope/call depth.",
+			"Depth family: for every depth 1..300 (700 thorough): begin x d, declare, end x d on the symbol table (with and without an outer declaration of the same name) against the model, and four recursive programs d calls deep whose input / local are named like caller variables (plain, call as an operand, a local per level, a method of an object): after the calls return the caller reads its own values and every block has ended. Many names: 16 sets of 60 000 (8 of 125 000 thorough) distinct six-character names alive at once on the symbol table, half in an outer and half in an inner block: undefined before its declaration, accepted, reads back its own value, assignments stay with their own name, inner names gone and outer ones kept after the block. " +
+			"E1: every statement tree <= k nodes (nesting <= 3) over 21 actions (a method / a type defined in the block under the name of a variable, a failing built-in method call, declare, declare from the same outer name, constant, assign, probe on 甲 乙 参, predefined names, 得到 in both call forms, assignment to a method / type name) inside 7 block kinds (branch, branch whose condition binds a name with 得到, one-pass 每当, one-element 遍历, method call, method ending in a handled exception, recursion depth 3), real interpreter vs reference interpreter on trace, error code and final scope/call depth.",
 		Assumptions: []string{
 			"reference model: lexical block scoping as stated by the property; runs whose outcome depends on a callee seeing a caller's block-local name (dynamic scoping, manual silent) are skipped and counted (open_dynamic_scope)",
 			"error codes are compared only where the error channel keeps them (not across a call boundary); assignment to a predefined name must be rejected, code not compared",
@@ -700,6 +820,28 @@ func init() {
 				c.Stat("depth_family_cases", 1)
 			}
 			c.Bound("depth_family", fmt.Sprintf("complete: every depth 1..%d x %d shapes", D, c06DeepKinds))
+			// many names alive at once: S sets of N consecutive names of the 1 000 000 (the real symbol
+			// table is a list that is searched from its end, so N names cost N*N comparisons)
+			manyN, manyS := 60000, 16
+			if c.Tier == "thorough" {
+				manyN, manyS = 125000, 8
+			}
+			c.Describe = func(idx int64) json.RawMessage {
+				return mc.J(c06Case{Part: "many", M: manyN, Idx: (idx - (1 << 38)) * int64(manyN)})
+			}
+			for sidx := 0; sidx < manyS; sidx++ {
+				idx := int64(1<<38) + int64(sidx)
+				if !c.Mine(idx) {
+					continue
+				}
+				c.CaseIdx(idx)
+				if f := c06ManyNames(manyN, sidx*manyN, func() { c.CaseIdx(idx) }); f != nil {
+					c.Fail(*f)
+				}
+				c.Eval(true)
+				c.Stat("many_names_cases", 1)
+			}
+			c.Bound("names_alive_at_once", fmt.Sprintf("%d sets of %d names (first half in the outer block, second half in an inner one)", manyS, manyN))
 			base := int64(1 << 40)
 			for m := 1; m <= K; m++ {
 				total := c06CountB(m, c06Depth)
@@ -744,6 +886,12 @@ func init() {
 			}
 			if cs.Part == "deep" {
 				if f := c06Deep(cs.M, int(cs.Idx)); f != nil {
+					c.Fail(*f)
+				}
+				return
+			}
+			if cs.Part == "many" {
+				if f := c06ManyNames(cs.M, int(cs.Idx), func() {}); f != nil {
 					c.Fail(*f)
 				}
 				return
